@@ -334,6 +334,26 @@ CLAIMS["C07"] = dict(
               "over symbolic index maps",
     ref="3/C07")
 
+CLAIMS["C08"] = dict(
+    text="The real rtdc_copy / h5ds_copy / basin_definition_copy / "
+         "is_properly_compressed copy a source tree (built with the real "
+         "RTDCWriter: scalar feature with symbolic values, image and trace "
+         "tokens, logs, tables with attributes, 0..3 basin definitions incl. "
+         "mapped and internal ones, optional empty / unknown features) whose "
+         "per-dataset HDF5 chunk size and zstd level are SYMBOLIC, so both "
+         "copy routes and the chunk-wise copy loop are explored; z3 proves "
+         "the structural diff source/copy empty, the source untouched, "
+         "summaries completed, copy(copy) == copy; variable-length logs with "
+         "symbolic byte and character lengths are copied without truncation.",
+    note="Trusted: z3, symx, h5py stand-in (iter_chunks tiling, zstd filter "
+         "report, h5o.copy = deep copy). dclab-tdms2rtdc is NOT covered "
+         "(nptdms/imageio parsing is not encodable); real re-chunking / "
+         "compression by libhdf5 and the command logs added by the CLI "
+         "tasks are outside.",
+    technique="symbolic execution of the real Python code objects over an "
+              "in-memory HDF5 model + z3 (LIA/LRA), structural tree diff",
+    ref="3/C08")
+
 NOT_APPLICABLE = {
 }
 
